@@ -17,6 +17,8 @@ ASSUMPTIONS = [
 	'the evaluator returns strings in quoted source form; they are decoded with ast.literal_eval',
 	'CPython 3.12 eval is the reference',
 ]
+# coverage-guided phase of the thorough tier (atheris/libFuzzer over the same strategy and oracle, vf/core.py _drive_atheris)
+FUZZ = {'seconds': 120, 'procs': 8, 'max_len': 2048, 'imports': ['rogw.tranp.implements.transpiler.evaluator']}
 BUDGET = {
 	'quick': {'seconds': 30, 'examples': 1500, 'shards': 16},
 	'thorough': {'seconds': 500, 'examples': 40000, 'shards': 16},
